@@ -96,7 +96,7 @@ class KindEngine:
         self.pure_classes = set(idx.subclasses("Pure"))
         self.errors: list[str] = []
         self.memo: dict = {}
-        self.lit = {n: (t["value"] if t["kind"] == "str" else None) for n, t in gm.terminals.items()}
+        self.lit = {n: gm.literal(n) for n in gm.terminals}
 
     # ------------------------------------------------------------------ materialise / classify
     def mk(self, r: Runner, d, label):
